@@ -87,7 +87,7 @@ pub fn run_one(ctx: &mut RunCtx, sc: &Scenario) -> Outcome {
     // (when the owner changes the tree during the run, only the armed monitor can tell the server's
     // doing from the owner's: no before / after comparison)
     let before = if ctx.manifest && sc.owner_ops.is_empty() { Some(tree::manifest(&ctx.base)) } else { None };
-    if !sc.owner_ops.is_empty() {
+    if !sc.owner_ops.is_empty() || sc.disk_fault.as_ref().map(|f| f.op == "touch").unwrap_or(false) {
         ctx.last_tree = None;
     }
 
